@@ -22,12 +22,18 @@ pub fn check_bound(
     text: &str,
     t: NaiveDateTime,
     bound: Duration,
+    order: u32,
 ) -> Result<(bool, &'static str), String> {
-    let bounded = oh.clone().with_context(
-        Context::default()
-            .with_holidays(holidays.clone())
-            .approx_bound_interval_size(bound),
-    );
+    // the bound is "in the context" whatever the order in which the context was assembled
+    use opening_hours::localization::NoLocation;
+    let ctx = match order {
+        0 => Context::default().with_holidays(holidays.clone()).approx_bound_interval_size(bound),
+        1 => Context::default().approx_bound_interval_size(bound).with_holidays(holidays.clone()),
+        2 => Context::default().approx_bound_interval_size(bound).with_locale(NoLocation).with_holidays(holidays.clone()),
+        _ => Context::default().with_holidays(holidays.clone()).approx_bound_interval_size(bound).with_locale(NoLocation),
+    };
+    let text = &format!("{text} [context assembled in order {order}: {}]", ["holidays, bound", "bound, holidays", "bound, locale, holidays", "holidays, bound, locale"][order.min(3) as usize]);
+    let bounded = oh.clone().with_context(ctx);
     // state is unchanged
     let s0 = guard(|| oh.state(t)).map_err(|p| format!("`{text}`: state({t}) panicked: {p}"))?;
     let s1 = guard(|| bounded.state(t)).map_err(|p| format!("`{text}` with bound {}: state({t}) panicked: {p}", fmt_dur(bound)))?;
@@ -132,7 +138,8 @@ fn bound_relation(ch: &mut Choices, case: &mut Case) -> Result<(), String> {
         let bound = bound.max(day).min(Duration::days(366 * 60));
         case.key = format!("{}  t={t} bound={}", g.text, fmt_dur(bound));
         case.units += 1;
-        let (near, label) = check_bound(&g.oh, &g.holidays.holidays, &g.text, t, bound)?;
+        let order = ch.weighted(&[40, 25, 20, 15]) as u32;
+        let (near, label) = check_bound(&g.oh, &g.holidays.holidays, &g.text, t, bound, order)?;
         case.label(label);
         nontrivial |= near;
     }
@@ -140,14 +147,25 @@ fn bound_relation(ch: &mut Choices, case: &mut Case) -> Result<(), String> {
     Ok(())
 }
 
+/// Replay text: `expression @ instant @ bound in seconds @ order of assembly`, no holidays.
+fn bound_text(text: &str, case: &mut Case) -> Result<(), String> {
+    case.key = text.to_string();
+    let parts: Vec<&str> = text.split(" @ ").collect();
+    let [expr, t, secs, order] = parts[..] else { return Err("bad replay text".into()) };
+    let oh = OpeningHours::parse(expr).map_err(|e| e.to_string())?;
+    let t: NaiveDateTime = t.trim().parse().map_err(|_| "bad instant")?;
+    let bound = Duration::seconds(secs.trim().parse().map_err(|_| "bad bound")?);
+    check_bound(&oh, &Default::default(), expr, t, bound, order.trim().parse().map_err(|_| "bad order")?).map(|_| ())
+}
+
 pub fn property() -> Property {
     Property {
         id: "C16",
         subs: vec![SubCheck {
             name: "bound_relation",
-            rule: "generated expression x calendars x 3 (instant, bound B): B is placed at the distance of the exact next change, +-1 min, +24 h, +24 h +-1 min, or at the whole number of days between the date of the instant and the day of the exact change / the next first of a month / the next New Year (+-1 s, +-1 day), or drawn log-uniformly from 1 day to 60 years; the exact answer comes from a forward scan of the daily schedules reaching 4 days beyond t+B; with the bound: state equal, next_change in {exact, none}, = exact if exact - t <= B - 24 h, = none if exact - t > B or there is no change; non-trivial = exact - t within 2 days of B or of B - 24 h",
+            rule: "generated expression x calendars x 3 (instant, bound B), the context assembled in one of four orders (holidays / bound / locale): B is placed at the distance of the exact next change, +-1 min, +24 h, +24 h +-1 min, or at the whole number of days between the date of the instant and the day of the exact change / the next first of a month / the next New Year (+-1 s, +-1 day), or drawn log-uniformly from 1 day to 60 years; the exact answer comes from a forward scan of the daily schedules reaching 4 days beyond t+B; with the bound: state equal, next_change in {exact, none}, = exact if exact - t <= B - 24 h, = none if exact - t > B or there is no change; non-trivial = exact - t within 2 days of B or of B - 24 h",
             f: bound_relation,
-            text_f: None,
+            text_f: Some(bound_text),
             cases_quick: 40_000,
             cases_thorough: 400_000,
             max_choices: 380,
